@@ -24,7 +24,8 @@ Kinds ==
 
 \* "nograd": a plain input, the call made under torch.no_grad() (inference)
 \* "shape2": the same values with another event shape (for elementwise transforms that take any shape)
-InputKinds == {"plain", "view", "noncontig", "grad", "nograd", "shape2"}
+\* "wide": the same values in a wider floating-point type than the model's (float64 data, float32 model)
+InputKinds == {"plain", "view", "noncontig", "grad", "nograd", "shape2", "wide"}
 \* operations that run the transform in the data -> noise direction
 ForwardLike == {"forward", "log_prob", "transform_to_noise"}
 
